@@ -1,5 +1,6 @@
 import Driver.Util
 import ReplicatModel.Layout
+import ReplicatModel.Inflight
 open Lean Replicat
 namespace Driver.HLayout
 def lexLE : List Nat → List Nat → Bool
@@ -51,6 +52,59 @@ def handleLayout (op : String) (j : Json) : Except String Json := do
     pure (Json.mkObj [("files", Json.arr perFile.toArray),
                       ("record_order", natArr (recs.map (fun e => (sorted[e.1]?.map (·.2)).getD 0))),
                       ("stream_length", jnat ((lay.getLast?.map (·.2)).getD 0))])
+  | "layout.inflight" =>
+    -- C14: as `layout.records`, but `_chunk_done (chunk j)` runs on the producer state in which the chunker had received
+    -- `pieces[j]` pieces (blocks of `Gen.pieceSize` bytes / non-empty paddings): files started so far, the one being read
+    -- ending where the read loop has advanced its record to
+    let align ← getNat j "align"
+    let fs ← (← getArr j "files").toList.mapM fun x => do
+      let sz ← getNat x "size"
+      let p ← getNatList x "path"
+      pure (sz, p)
+    let lens ← getNatList j "lens"
+    let order ← getNatList j "order"
+    let pieces ← getNatList j "pieces"
+    let sorted := (fs.zipIdx).mergeSort sortKeyLE
+    let sizes := sorted.map (·.1.1)
+    let lay := layout align sizes
+    let spans := spansFrom 0 lens
+    let evs := Inflight.events align Gen.pieceSize sizes
+    let tOf := fun (k : Nat) => Inflight.eventsForYields (pieces[k]?.getD 0) evs
+    let stateOf := fun (k : Nat) => Inflight.stateAt align sizes (tOf k)
+    let recs := finalRecords sizes.length (Inflight.recordsAt (fun k => (stateOf k).files) spans order)
+    let causal := (List.range spans.length).all fun k => (spans[k]?.map (fun c => decide (c.2 ≤ (stateOf k).yielded))).getD true
+    -- chunks attributed while the file they were (partly) cut from had not been read to its end yet (`.start` without `.finish`)
+    let unfinished := ((List.range spans.length).filter fun k =>
+      let pre := evs.take (tOf k)
+      let started := (pre.filter fun e => e == Inflight.Ev.start).length
+      let finished := (pre.filter fun e => e == Inflight.Ev.finish).length
+      match spans[k]?, lay[started - 1]? with
+      | some c, some f => decide (finished < started) && decide (max c.1 f.1 < min c.2 f.2)
+      | _, _ => false).length
+    -- … and among those: the record of that file still ended before its final end (three or more reads)
+    let clipped := ((List.range spans.length).filter fun k => ((stateOf k).files.zip lay).any fun vf => decide (vf.1.2 < vf.2.2)).length
+    let early := ((List.range spans.length).filter fun k => (stateOf k).files != lay).length
+    let perFile := (sorted.zipIdx).map fun (fi, k) =>
+      let refs := lookupRec recs k
+      Json.mkObj [
+        ("input_index", jnat fi.2),
+        ("has_record", Json.bool refs.isSome),
+        ("refs", Json.arr (((refs.getD []).mergeSort refLE).map refJson).toArray),
+        ("tiling", Json.arr ((tiling (refs.getD [])).map (fun t => natArr [t.1, t.2.1, t.2.2])).toArray),
+        ("size", jnat (planSize (refs.getD [])))]
+    pure (Json.mkObj [("files", Json.arr perFile.toArray),
+                      ("piece_lengths", natArr (evs.filterMap fun e => match e with
+                        | .read n => if n != 0 then some n else none
+                        | .pad n => if n != 0 then some n else none
+                        | _ => none)),
+                      ("block", jnat Gen.pieceSize),
+                      ("end_advanced_in_read_loop", Json.bool Gen.streamEndAdvancedInReadLoop),
+                      ("causal", Json.bool causal),
+                      ("chunks_attributed_to_unfinished_file", jnat unfinished),
+                      ("chunks_attributed_on_clipped_record", jnat clipped),
+                      ("chunks_attributed_before_final_records", jnat early),
+                      ("final_files", Json.bool ((Inflight.run evs).files == lay)),
+                      ("stream_length", jnat (Inflight.run evs).yielded)])
   | "restore.apply" =>
     -- chunks: [hex] by counter-1; refs: [[counter,lo,hi]]; old: hex or null; order: permutation of plan positions
     let chunks ← (← getArr j "chunks").toList.mapM (fun x => do unhex (← x.getStr?))
